@@ -37,6 +37,8 @@ fn run_partition(ev: &mut Ev, st: &Stream, cuts: &[usize]) -> CaseResult {
     let route = (total + cuts.len()) % 3;
     ev.count(["stream-route/new", "stream-route/default", "stream-route/clone-midway"][route]);
     let mut ss = if route == 1 { SummaryStream::default() } else { SummaryStream::new() };
+    let deliver = (total / 3 + cuts.first().copied().unwrap_or(0)) % 4;
+    ev.count(["deliver/write", "deliver/write_all", "deliver/write_vectored", "deliver/write+flush"][deliver]);
     let mut delivered;
     let mut seen = 0usize;
     let mut failed = false;
@@ -46,7 +48,39 @@ fn run_partition(ev: &mut Ev, st: &Stream, cuts: &[usize]) -> CaseResult {
         if route == 2 && w == chunks.len() / 2 {
             ss = ss.clone();
         }
-        let res = ss.write(chunk);
+        // four ways std::io::Write delivers a chunk: write, write_all,
+        // write_vectored (the chunk as two slices, repeated until consumed),
+        // and write followed by flush
+        let res = match deliver {
+            1 => ss.write_all(chunk).map(|_| chunk.len()),
+            2 => {
+                let mut done = 0usize;
+                let mut out = Ok(chunk.len());
+                while done < chunk.len() {
+                    let rest = &chunk[done..];
+                    let mid = rest.len() / 2;
+                    let bufs = [std::io::IoSlice::new(&rest[..mid]), std::io::IoSlice::new(&rest[mid..])];
+                    match ss.write_vectored(&bufs) {
+                        Ok(n) if n > 0 && n <= rest.len() => done += n,
+                        Ok(n) => {
+                            return Err(format!(
+                                "write_vectored of {} bytes in write #{w} (stream offset {}) returned Ok({n})",
+                                rest.len(),
+                                lo + done
+                            )
+                            .into())
+                        }
+                        Err(e) => {
+                            out = Err(e);
+                            break;
+                        }
+                    }
+                }
+                out
+            }
+            3 => ss.write(chunk).and_then(|n| ss.flush().map(|_| n)),
+            _ => ss.write(chunk),
+        };
         ev.eval();
         ev.count("writes");
         if chunk.is_empty() {
